@@ -419,10 +419,17 @@ def helpers(ctx, rel, exclude=()):
     return {q: f for q, f in m.funcs.items() if "." not in q and "#" not in q and q.startswith("_") and q not in exclude}
 
 
+_FN_CACHE = {}
+
+
 class GeomEval(AutoEvaluator):
     def __init__(self, fn, ctx, rel, truth=None, decisions=None, env=None, hook=None, sub_hook=None, inline=None, depth=0,
                  shared=None, alias=None):
-        super().__init__(fn, src=ctx.src, env=env)
+        if fn is not None and id(fn) in _FN_CACHE and _FN_CACHE[id(fn)][0] is fn:
+            super().__init__(None, src=ctx.src, env=env)      # the scan for buffer names was done before
+            self.buffers = set(_FN_CACHE[id(fn)][2])
+        else:
+            super().__init__(fn, src=ctx.src, env=env)
         self.ctx, self.rel, self.fn = ctx, rel, fn
         self.mod = ctx.src.mod(rel)
         self.truth = truth
@@ -442,12 +449,16 @@ class GeomEval(AutoEvaluator):
         self.nested = set()
         self.locals_ = set()
         if fn is not None:
-            a = fn.args
-            for x in a.posonlyargs + a.args + a.kwonlyargs:
-                self.locals_.add(x.arg)
-            for n in ast.walk(fn):
-                if isinstance(n, ast.Name) and isinstance(n.ctx, ast.Store):
-                    self.locals_.add(n.id)
+            if id(fn) not in _FN_CACHE:
+                loc = set()
+                a = fn.args
+                for x in a.posonlyargs + a.args + a.kwonlyargs:
+                    loc.add(x.arg)
+                for n in ast.walk(fn):
+                    if isinstance(n, ast.Name) and isinstance(n.ctx, ast.Store):
+                        loc.add(n.id)
+                _FN_CACHE[id(fn)] = (fn, frozenset(loc), frozenset(self.buffers))
+            self.locals_ = set(_FN_CACHE[id(fn)][1])
 
     # ---------------------------------------------------------------- decisions
     def _oracle(self, test, ev):
@@ -789,7 +800,14 @@ class GeomEval(AutoEvaluator):
                 return slice_value(*vs)
         if name in self.funcs and nargs == 1:
             v = self.ev(node.args[0])
-            return map_value(self.funcs[name], v)
+            f = self.funcs[name]
+
+            def safe(x, f=f, nm=name.split(".")[-1]):
+                try:
+                    return f(x)
+                except Unsupported:
+                    return F.fn(nm, x)       # outside the normal form (e.g. a quotient as argument): an opaque application, equal only to itself
+            return map_value(safe, v)
         if name in ("np.zeros", "np.zeros_like", "np.empty", "np.empty_like"):
             self._record(name, node)
             return F.fn("zeros", f"#{self.sh.fresh()}")
